@@ -7,6 +7,7 @@ import Exetera.Props.C10.Spans
 import Exetera.Props.C10.FilterIndex
 import Exetera.Props.C10.Unique
 import Exetera.Props.C10.Concat
+import Exetera.Props.C10.Journal
 /-!
 # C10 — compiled kernels never touch memory outside their arrays (join kernels part)
 
